@@ -91,7 +91,21 @@ ProgDotted ==
     bx \in { [k |-> "no"], [k |-> "co", ty |-> BaseRef("i32"), val |-> CInt] },
     lp \in { [k |-> "no"], Sv(NoRef) }, bp \in { [k |-> "no"], Sv(NoRef) } }
 
+\* ---- family "aliasitem": items of an enum named through a typedef of the enum (R.I with typedef E R): only the enum's
+\*      own name qualifies an item, whatever has been linked by the time the reference is met
+ProgAliasItem ==
+  { [inc |-> IncNone,
+     ty |-> (Key("a", "E") :> [k |-> "en"]) @@ (Key("a", "R") :> [k |-> "td", tgt |-> Bare("E")]) @@ (Key("a", "R2") :> r2)
+            @@ (Key("a", "S") :> [k |-> "st", fty |-> ft, dfl |-> dv]),
+     co |-> (Key("a", "x") :> cx), sv |-> EmptySv] :
+    r2 \in { [k |-> "no"], [k |-> "td", tgt |-> Bare("R")] },
+    ft \in { Bare("R"), Bare("E") },
+    dv \in { CNone, CRef("R", "I"), CRef("E", "I"), CRef("R2", "I") },
+    cx \in { [k |-> "no"], [k |-> "co", ty |-> Bare("R"), val |-> CRef("R", "I")], [k |-> "co", ty |-> Bare("E"), val |-> CRef("E", "I")],
+             [k |-> "co", ty |-> Bare("R"), val |-> CRef("E", "I")] } }
+
 Programs == CASE Family = "types"   -> ProgTypes
+              [] Family = "aliasitem" -> ProgAliasItem
               [] Family = "dotted"  -> ProgDotted
               [] Family = "modsvcs" -> ProgModSvcs
               [] Family = "consts"  -> ProgConsts
